@@ -28,30 +28,33 @@ INVARIANTS = ['TypeOK', 'InvOrder', 'InvPerRank', 'InvNoneSkipped', 'InvFailPre'
               'InvGpuEnv', 'InvRankId', 'InvAgree',
               'InvProgress']
 DEVS = ['DevEnvUnescaped', 'DevIgnorePreFail', 'DevRetAfterPost', 'DevErrDirFromOut',
-        'DevNamedEnvLast', 'DevStartupAbortsOthers', 'DevGpuWholeOnly', 'DevPalsByVersionLine']
+        'DevNamedEnvLast', 'DevStartupAbortsOthers', 'DevGpuWholeOnly', 'DevPalsByVersionLine',
+        'DevGenericLast', 'DevSameFileDup']
 
 
 # ------------------------------------------------------------------------------
 def cfgset(ranks='1..2', pre=2, post=1, prel='{0}', postl='{0}', sync='BOOLEAN',
            argv='{<<"plain">>}', env='{<<>>}', omp='{FALSE}', gq='{0}', gtype='{""}',
            out='{"default"}', err='{"default"}', lm=None, pre_set=None, nenv='{FALSE}', envk=None,
-           sto='{FALSE}', svc='{FALSE}', cfgpre='{FALSE}', prof='{FALSE}'):
+           sto='{FALSE}', svc='{FALSE}', cfgpre='{FALSE}', prof='{FALSE}',
+           stale='{<<"none", 0>>}', wr='{"both"}', where='TRUE'):
     '''TLA+ set expression of task shapes (see ScriptOps.tla for the fields);
        envk: set of key-kind sequences for the environment ev (default: all fresh)'''
     lm    = lm or ('(IF n = 1 THEN {<<"fork", "none">>, <<"mpi", "ompi">>} '
                    'ELSE {<<"mpi", "ompi">>})')
     pre_s = pre_set or 'SeqsUpTo(Entries(n), %d)' % pre
     envk  = envk or '{[i \\in 1 .. Len(ev) |-> "fresh"]}'
-    return ('UNION { UNION { { [ranks |-> n, lm |-> lm[1], fl |-> lm[2], pre |-> p, post |-> q, prel |-> a, '
+    return ('UNION { UNION { { c \\in { [ranks |-> n, lm |-> lm[1], fl |-> lm[2], pre |-> p, post |-> q, prel |-> a, '
             'postl |-> b, sync |-> s, argv |-> av, env |-> ev, envk |-> ek, nenv |-> ne, '
             'omp |-> om, gq |-> g, gtype |-> gt, out |-> o, err |-> oe, sto |-> st, svc |-> sv, '
-            'cfgpre |-> cp, prof |-> pf] : '
+            'cfgpre |-> cp, prof |-> pf, sv |-> sl[1], sval |-> sl[2], wr |-> w] : '
             'lm \\in %s, p \\in %s, q \\in SeqsUpTo(Entries(n), %d), a \\in %s, b \\in %s, '
             's \\in %s, av \\in %s, ek \\in %s, ne \\in %s, om \\in %s, g \\in %s, gt \\in %s, '
-            'o \\in %s, oe \\in %s, st \\in %s, sv \\in %s, cp \\in %s, pf \\in %s } '
+            'o \\in %s, oe \\in %s, st \\in %s, sv \\in %s, cp \\in %s, pf \\in %s, '
+            'sl \\in %s, w \\in %s } : %s } '
             ': ev \\in %s } : n \\in %s }'
             % (lm, pre_s, post, prel, postl, sync, argv, envk, nenv, omp, gq, gtype, out, err,
-               sto, svc, cfgpre, prof, env, ranks))
+               sto, svc, cfgpre, prof, stale, wr, where, env, ranks))
 
 
 _ONE  = dict(ranks='{1}', pre=0, post=0, sync='{FALSE}', lm='{<<"fork", "none">>}')
@@ -73,6 +76,19 @@ _KINDS = '{"default", "rel", "abs"}'
 # td.stdout x td.stderr, independently: all nine combinations, every launcher
 _IO   = dict(pre_set='{<<>>, <<GEntry>>}', post=0, sync='{FALSE}', out=_KINDS, err=_KINDS)
 
+# a stale generic rank variable (another launcher layer started the sub-agent) next
+# to the flavor's own announcement x what makes the script switch on the rank id
+_STALE = dict(lm='{<<"mpi", f>> : f \\in MpiFlavors}', pre_set='{<<>>, <<REntry({n - 1})>>}',
+              post=0, sync='{FALSE}',
+              stale='{<<"PMIX_RANK", 0>>, <<"PMIX_RANK", 5>>, <<"MPI_RANK", 0>>, <<"MPI_RANK", 5>>}',
+              where='Decidable(c)')
+_WR   = '{"both", "out", "err"}'
+# td.stderr = td.stdout (one file for both streams), the executable writing to one
+# stream or both, a failing pre / post_exec (rp_error writes to stderr), one and
+# several ranks: the shared file holds every line of both streams
+_SAME = dict(pre_set='{<<>>, <<GEntry>>}', post=1, sync='{FALSE}',
+             out='{"rel", "abs"}', err='{"same"}', wr=_WR)
+
 # the bounded domain is a union of slices: control flow x data would be a product
 # of dimensions that do not interact in the scripts
 SLICES = {
@@ -86,9 +102,13 @@ SLICES = {
         'env'   : cfgset(env='SeqsUpTo(Classes, 2)', **_ONE),
         'res'   : cfgset(**_RES),
         'io'    : cfgset(**_IO),
+        'iowr'  : cfgset(pre=0, post=0, sync='{FALSE}', out='{"default", "abs"}',
+                         err='{"default", "rel"}', wr='{"out", "err"}'),
+        'same'  : cfgset(**_SAME),
         'nenv'  : cfgset(**_NENV),
         'opt'   : cfgset(sync='{FALSE}', **_OPT),
         'flavor': cfgset(**_FLAV),
+        'stale' : cfgset(**_STALE),
     },
     'thorough': {
         'ctl1'  : cfgset(ranks='{1}', pre=3, post=2),
@@ -103,6 +123,9 @@ SLICES = {
         'nenv'  : cfgset(**dict(_NENV, pre_set='{<<>>, <<GEntry>>}')),
         'opt'   : cfgset(omp='BOOLEAN', **_OPT),
         'flavor': cfgset(**_FLAV),
+        'stale' : cfgset(**dict(_STALE, gq='{0, 4}', gtype='{"CUDA"}')),
+        'iowr'  : cfgset(pre=0, post=0, sync='{FALSE}', out=_KINDS, err=_KINDS, wr='{"out", "err"}'),
+        'same'  : cfgset(**dict(_SAME, sto='BOOLEAN', nenv='BOOLEAN')),
         'flavorp': cfgset(**dict(_FLAV, post=1, gq='{0}', gtype='{""}')),
         'optgpu': cfgset(pre=0, post=0, sync='{FALSE}', sto='BOOLEAN', cfgpre='BOOLEAN',
                          gq='{0, 2, 4}', gtype='{"", "CUDA"}', out=_KINDS),
@@ -153,7 +176,9 @@ def features(run):
     '''what a run exercises: the sample must contain every feature'''
     cfg, F, xrc = run
     fs = {'ranks%d' % cfg['ranks'], 'lm:' + cfg['lm'], 'fl:%s/%d' % (cfg['fl'], cfg['ranks']),
-          'flgpu:%s/%d/%d' % (cfg['fl'], cfg['ranks'], cfg['gq']), 'sync%d' % cfg['sync'],
+          'flgpu:%s/%d/%d' % (cfg['fl'], cfg['ranks'], cfg['gq']),
+          'stale:%s=%d/%s/%d' % (cfg['sv'], cfg['sval'], cfg['fl'], cfg['ranks']),
+          'wr:%s/%s/%s/%s%d' % (cfg['wr'], cfg['out'], cfg['err'], cfg['lm'], cfg['ranks']), 'sync%d' % cfg['sync'],
           'prel%d' % cfg['prel'], 'postl%d' % cfg['postl'], 'omp%d' % cfg['omp'],
           'gpu:%d/%s/%s%d' % (cfg['gq'], cfg['gtype'], cfg['lm'], cfg['ranks']), 'io:%s/%s/%s%d' % (cfg['out'], cfg['err'], cfg['lm'], cfg['ranks']),
           'argc%d' % len(cfg['argv']),
@@ -246,8 +271,12 @@ def classify(case, clause):
     cfg = case['cfg']
     if cfg.get('nenv') and any(k != 'fresh' for k in cfg.get('envk', [])):
         return NAMED_ENV_KEY
+    if cfg.get('err') == 'same':
+        return 'td.stderr names the same file as td.stdout'
     if (cfg['out'] == 'abs') != (cfg.get('err', cfg['out']) == 'abs'):
         return MIXED_IO
+    if cfg.get('sv', 'none') != 'none':
+        return 'stale %s in the environment of the ranks, launcher flavor %s' % (cfg['sv'], cfg['fl'])
     if cfg.get('fl') not in (None, 'none', 'ompi'):
         return 'MPI launcher of flavor ' + cfg['fl']
     if clause.startswith('C10.Gpu'):
@@ -283,7 +312,9 @@ def check_cases(chk, cases, workers):
             pfx = err.split('.')[0]
             if pfx == 'I10':
                 info[err] = info.get(err, 0) + 1
-            elif pfx == chk.pid or pfx == 'X':
+            elif pfx == chk.pid or pfx == 'X' or (chk.pid == 'C09' and err.startswith('C10.Gpu')):
+                # C09 share: the GPUs of the placement are pinned through the rank's environment
+                err = err.replace('C10.Gpu', 'C09.Gpu', 1) if chk.pid == 'C09' else err
                 chk.violation(err, classify(case, err),
                               'generated scripts of %s (argv %r, env %r, F %r) violate %s'
                               % (json.dumps(case['cfg'], sort_keys=True), case['argv'],
@@ -298,6 +329,8 @@ def run(chk, tier, seed):
     rng     = random.Random(seed * 104729 + 10)
     quick   = tier == 'quick'
     slices  = SLICES['quick' if quick else 'thorough']
+    if chk.pid == 'C09':
+        slices = {k: v for k, v in slices.items() if k in ('res', 'flavor')}     # the GPU / rank slices
     workers = 8 if quick else 12
 
     # ---- 1. design model, exhaustive; terminal states printed ---------------------
@@ -317,7 +350,8 @@ def run(chk, tier, seed):
         small = {'ctl': cfgset(pre=1, post=1), 'env': SLICES['quick']['env'],
                  'io': SLICES['quick']['io'], 'nenv': SLICES['quick']['nenv'],
                  'res': SLICES['quick']['res'], 'opt': SLICES['quick']['opt'],
-                 'flavor': SLICES['quick']['flavor']}
+                 'flavor': SLICES['quick']['flavor'], 'stale': SLICES['quick']['stale'],
+                 'same': SLICES['quick']['same']}
         for dev in DEVS:
             r2 = tlc.run('Script', 'MC', 'MC.cfg', workers=workers, timeout=900,
                          extra_files=mc_files(small, devs=[dev]))
